@@ -107,19 +107,62 @@ def gen_part(rng, W, want_valid=True):
     return {'Tref': W['Tref'], 'H': W['H'], 'S': None, 'cp': [], 'range': None}
 
 
+# sizes of a difference between two values given for one datum: from one unit in the last place of the double upward
+ULPS = ['ulp+', 'ulp-', '4ulp']                                   # inside the documented tolerance of H and S (rel 1e-15)
+RELS = [1e-14, 1e-13, 1e-12, 1e-11, 1e-10, 1e-9, 1e-8, 1e-7, 1e-6, 3e-6, 9e-6, 1e-5, 1e-4, 1e-3]      # outside it
+ABS0 = ['0.000000000000000000000000000001', '0.000000000001', '0.000000005', '-0.00000001', '0.0000001']     # next to an exact zero (no relative scale there)
+
+
+def nudge(v, size):
+    """the double `size` away from the double of v, as an exact Fraction (None if that is v itself)"""
+    x = float(v)
+    if x == 0.0:
+        return Fraction(size) if isinstance(size, str) and 'ulp' not in size else Fraction(1, 10 ** 30)
+    elif size == 'ulp+':
+        y = math.nextafter(x, math.inf)
+    elif size == 'ulp-':
+        y = math.nextafter(x, -math.inf)
+    elif size == '4ulp':
+        y = x
+        for _ in range(4):
+            y = math.nextafter(y, math.inf)
+    elif isinstance(size, str):
+        y = x + float(size)
+    else:
+        y = x * (1.0 + size)
+    return None if y == x else Fraction(y)
+
+
+def any_nudge(rng, v, within_tolerance_too=True):
+    """v moved by a random small size (Cp: every size is a conflict; H and S: the ULPS are inside the documented tolerance)"""
+    sizes = (ULPS if within_tolerance_too else []) + RELS + (ABS0 if float(v) == 0.0 else [])
+    for _ in range(10):
+        w = nudge(v, rng.choice(sizes))
+        if w is not None:
+            return w
+    return Fraction(v) + 1
+
+
 def mutate_part(rng, p, W):
     """alter one datum (conflict) or the range (hull / inconsistency)"""
     q = dict(p, cp=list(p['cp']))
     how = rng.choice(['H', 'S', 'cp', 'range_wider', 'range_narrow', 'range_shift', 'H_tiny'])
+    if rng.random() < 0.3:
+        how = rng.choice(['H_tiny', 'S_tiny', 'cp_tiny', 'cp_tiny'])
     if how == 'H' and q['H'] is not None:
         q['H'] = q['H'] + rng.choice([1, -1, Fraction(1, 1000)])
-    elif how == 'H_tiny' and q['H'] is not None and q['H'] != 0:
-        q['H'] = q['H'] * (1 + Fraction(1, 10 ** 9))
+    elif how == 'H_tiny' and q['H'] is not None:
+        q['H'] = any_nudge(rng, q['H'])
+    elif how == 'S_tiny' and q['S'] is not None:
+        q['S'] = any_nudge(rng, q['S'])
     elif how == 'S' and q['S'] is not None:
         q['S'] = q['S'] + rng.choice([1, -2, Fraction(1, 100)])
     elif how == 'cp' and q['cp']:
         i = rng.randrange(len(q['cp']))
         q['cp'][i] = (q['cp'][i][0], q['cp'][i][1] + rng.choice([1, -1, Fraction(1, 10)]))
+    elif how == 'cp_tiny' and q['cp']:
+        i = rng.randrange(len(q['cp']))
+        q['cp'][i] = (q['cp'][i][0], any_nudge(rng, q['cp'][i][1]))
     elif how == 'range_wider':
         r = W['range']
         q['range'] = (r[0] - rng.choice([1, 50]) if r[0] > 51 else r[0], r[1] + rng.choice([1, 200]))
@@ -311,20 +354,25 @@ def check_sequences(ctx, rng, n, batch):
                 q = mutate_part(rng, parts[idx], W)
                 if part_valid(q):
                     parts[idx] = q
+        check_ref_assumption(ctx, W)
+        ops = [[rng.randrange(k), rng.randrange(k), rng.random() < 0.3] for _ in range(rng.randint(1, 12))]
+        sequence_case(ctx, parts, ops, batch, sample=i < 2)
+
+
+def sequence_case(ctx, parts, ops_todo, batch, sample=False):
+    """correlations built from `parts`, then update calls `ops_todo` = [target, source, overwrite]: every call against the
+    specification (pointwise union / ReadOnlyDataError / unchanged on error), the whole history against the model"""
+    if True:
+        k = len(parts)
         try:
             objs = [impl_obj(p) for p in parts]
         except Exception as e:
             raise common.MachineryError('generator produced an unconstructible part %r: %r' % (parts, e))
-        check_ref_assumption(ctx, W)
         init = [obs_obj(o) for o in objs]
         ops = []
         impl = []
-        nops = rng.randint(1, 12)
         ctx.count('sequences')
-        for j in range(nops):
-            t = rng.randrange(k)
-            s = rng.randrange(k)
-            ow = rng.random() < 0.3
+        for j, (t, s, ow) in enumerate(ops_todo):
             before_t = obs_obj(objs[t])
             before_s = obs_obj(objs[s])
             inp = {'universe': [show_part(p) for p in parts], 'ops': ops + [[t, s, ow]], 'step': j}
@@ -368,9 +416,63 @@ def check_sequences(ctx, rng, n, batch):
                 if err is None and s == t and not states_close(after, before_t):
                     ctx.violation('merging a correlation into itself changed it', inp, expected=before_t, observed=after)
         ctx.case(json.dumps([[show_part(p) for p in parts], ops]) if k >= 2 else None,
-                 {'universe': [show_part(p) for p in parts][:3], 'ops': ops[:4]} if i < 2 else None)
-        batch.append(({'op': 'c13.seq', 'objs': [jcorr_of_obs(s) for s in init], 'ops': ops}, impl,
-                      {'universe': [show_part(p) for p in parts], 'ops': ops}))
+                 {'universe': [show_part(p) for p in parts][:3], 'ops': ops[:4]} if sample else None)
+        if batch is not None:
+            batch.append(({'op': 'c13.seq', 'objs': [jcorr_of_obs(s) for s in init], 'ops': ops}, impl,
+                          {'universe': [show_part(p) for p in parts], 'ops': ops}))
+
+
+# ---------------------------------------------------------------------------------------- the size of a conflict
+def tolerance_cases(ctx, batch):
+    """two values for ONE datum that differ by every size from one unit in the last place upward: a heat-capacity point is
+    compared exactly (any difference is a conflict); H and S are compared with the documented relative tolerance 1e-15 (a few
+    units in the last place merge, the later value standing; anything from 1e-14 upward is a conflict).  Through update() with
+    and without overwrite, and through two files in both include orders."""
+    import random
+    rng = random.Random(13)
+    # (a merge whose result is inconsistent -- the table of one part outside the range of the other -- on every run)
+    T = {'Tref': Fraction(500), 'H': None, 'S': None, 'cp': [(Fraction(400), Fraction(2)), (Fraction(600), Fraction(3))], 'range': None}
+    N = {'Tref': Fraction(500), 'H': Fraction(1), 'S': None, 'cp': [], 'range': (Fraction(450), Fraction(550))}
+    sequence_case(ctx, [T, N], [[0, 1, False], [1, 0, False], [0, 1, True]], batch)
+    bases = [Fraction('58.601'), Fraction(3), Fraction('-0.125'), Fraction(0), Fraction('1234.5'), Fraction('0.000001')]
+    for datum in ('cp', 'H', 'S'):
+        for bi, v in enumerate(bases):
+            for size in ULPS + RELS + (ABS0 if v == 0 else []):
+                w = nudge(v, size)
+                if w is None:
+                    continue
+                A = {'Tref': Fraction(500), 'H': Fraction('-12.5'), 'S': Fraction('30.25'),
+                     'cp': [(Fraction(400), Fraction('4.5')), (Fraction(600), Fraction('6.75'))], 'range': (Fraction(300), Fraction(700))}
+                B = dict(A, cp=list(A['cp']))
+                if datum == 'cp':
+                    A['cp'][0] = (Fraction(400), v)
+                    B['cp'][0] = (Fraction(400), w)
+                else:
+                    A[datum], B[datum] = v, w
+                ctx.count('conflict_size_%s_%s' % (datum, size if isinstance(size, str) else '%g' % size))
+                sequence_case(ctx, [A, B, dict(A, cp=list(A['cp']))], [[0, 1, False], [2, 1, True], [1, 0, False]], batch)
+                if bi >= 2 and not ctx.thorough():
+                    continue
+                # the same two values in two files, either file including the other
+                conflict = datum == 'cp' or not isclose15(float(v), float(w))
+                for first, second in ((A, B), (B, A)):
+                    d = L.new_dir(ctx, 'c13t-')
+                    files = {'root': [('C(H)4', {'thermochem': entry_tree(rng, first, 'nd')})], 'f1': [('C(H)4', {'thermochem': entry_tree(rng, second, 'nd')})]}
+                    path, jf = write_tree(ctx, d, ('root', [('f1', [])]), files, False)
+                    st, res = L.load_library(path)
+                    inp = {'mode': 'conflict of size %s in %s' % (size, datum), 'names': ['C(H)4'], 'texts': L.read_texts(d),
+                           'spec': {'error': 'readOnly'} if conflict else {'groups': {'C(H)4': show_part(second)}}}
+                    ctx.case(json.dumps(inp['texts']), None)
+                    ctx.count('conflict_size_files')
+                    batch.append(({'op': 'c13.load', 'file': jf}, (st, res if st == 'err' else obs_lib(res)), inp))
+                    if conflict:
+                        if st != 'err' or res != 'readOnly':
+                            ctx.violation('two different values for one datum in two files are not rejected with ReadOnlyDataError (the '
+                                          'later file silently wins)', inp, expected='readOnly', observed=res if st == 'err' else obs_lib(res))
+                    elif st != 'ok' or not states_close({k2: obs_lib(res)['C(H)4'][k2] for k2 in obs_of_part(union_of([second]))},
+                                                        obs_of_part(union_of([second]))):
+                        ctx.violation('two values for H or S within the documented tolerance (1e-15 relative) do not merge to the later one',
+                                      inp, expected=obs_of_part(union_of([second])), observed=res if st == 'err' else obs_lib(res))
 
 
 def classify_nonatomic(before_t, before_s, err):
@@ -529,6 +631,79 @@ def obs_of_part(u):
             'range': None if u['range'] is None else [float(u['range'][0]), float(u['range'][1])]}
 
 
+def include_strings(texts):
+    """every include entry written in the files `texts` = {relative path: text}: [(including file, entry)]"""
+    from pgradd import yaml_io
+    out = []
+    for rel, text in texts.items():
+        for inc in (yaml_io.parse(text) or {}).get('include') or []:
+            out.append((rel, inc))
+    return out
+
+
+def decoys_for(texts, other_group):
+    """{path relative to the working directory: text}: a well-formed library file with other contents under every name by which
+    one of the files includes another (as written, and relative to the root), and under the two fixed names"""
+    rels = {'library.yaml'}
+    for src, inc in include_strings(texts):
+        rels.add(os.path.normpath(inc))
+        rels.add(os.path.normpath(os.path.join(os.path.dirname(src), inc)))
+    out = {}
+    for k, rel in enumerate(sorted(rels)):
+        out[rel] = 'units: {}\ngroups:\n  "%s": {"thermochem": {"T_ref": "300 K", "ND_H_ref": %d.25, "ND_S_ref": -7.5}}\n' % (other_group, 90 + k)
+    return out
+
+
+def same_load(a, b):
+    """two outcomes (status, library or error class) of loading agree"""
+    if a[0] != b[0]:
+        return False
+    if a[0] == 'err':
+        return a[1] == b[1]
+    oa, ob = obs_lib(a[1]), obs_lib(b[1])
+    return set(oa) == set(ob) and all(same_opt(oa[k], ob[k]) for k in oa)
+
+
+def show_load(r):
+    return r[1] if r[0] == 'err' else obs_lib(r[1])
+
+
+def load_in_situation(ctx, d, cwd):
+    """load d/library.yaml with the current directory described by `cwd`:
+    {'other_files': {rel: text}} (a fresh directory holding those), {'own': rel dir} (a directory of the library itself;
+    'by': 'absolute' | 'relative' path given to Load)"""
+    if 'other_files' in cwd:
+        wd = L.new_dir(ctx, 'c13cwd-')
+        L.write_texts(wd, cwd['other_files'])
+        return L.load_library(os.path.join(d, 'library.yaml'), cwd=wd)
+    wd = os.path.normpath(os.path.join(d, cwd['own']))
+    target = os.path.join(d, 'library.yaml') if cwd.get('by') != 'relative' else os.path.relpath(os.path.join(d, 'library.yaml'), wd)
+    return L.load_library(target, cwd=wd)
+
+
+def cwd_variants(ctx, rng, d, path, texts, inp, neutral):
+    other = [nm for nm in NAMES if nm not in inp['names']]
+    dirs = sorted({os.path.dirname(r) for r in texts})
+    variants = [{'other_files': decoys_for(texts, other[0] if other else 'Pt(C)')}]
+    own = [{'own': '.', 'by': 'absolute'}, {'own': '.', 'by': 'relative'}] + [{'own': x, 'by': 'absolute'} for x in dirs if x] + \
+          [{'own': x, 'by': 'relative'} for x in dirs if x]
+    variants += own if ctx.thorough() else rng.sample(own, min(len(own), 2))
+    for cwd in variants:
+        got = load_in_situation(ctx, d, cwd)
+        ctx.count('loads_from_another_cwd')
+        ctx.count('cwd_' + ('other_files' if 'other_files' in cwd else 'own_%s_%s' % ('root' if cwd['own'] == '.' else 'subdir', cwd['by'])))
+        ctx.case(None, None)
+        if not same_load(neutral, got):
+            if 'other_files' in cwd and len(cwd['other_files']) > 1:
+                keep = common.shrink_list(sorted(cwd['other_files']), lambda rels: not same_load(neutral, load_in_situation(
+                    ctx, d, {'other_files': dict((r, cwd['other_files'][r]) for r in rels)})), max_steps=40)
+                cwd = {'other_files': dict((r, cwd['other_files'][r]) for r in keep)}
+            ctx.violation('what a library holds after loading depends on the current directory of the process',
+                          dict(inp, cwd=cwd, spec={'same_as_from_a_neutral_directory': True}),
+                          expected=show_load(neutral), observed=show_load(got))
+            return
+
+
 def check_splits(ctx, rng, n_wholes, batch):
     for i in range(n_wholes):
         ngroups = rng.choice([1, 1, 2, 3])
@@ -562,11 +737,13 @@ def check_splits(ctx, rng, n_wholes, batch):
                 cands = [('H', [0, 1])]
             what, own = rng.choice(cands)
             j = rng.choice(own)
+            tiny = rng.random() < 0.5
             if what in ('H', 'S'):
-                splits[g][j][what] = splits[g][j][what] + rng.choice([1, -1, Fraction(1, 8)])
+                v = splits[g][j][what]
+                splits[g][j][what] = any_nudge(rng, v, within_tolerance_too=False) if tiny else v + rng.choice([1, -1, Fraction(1, 8)])
             else:
-                splits[g][j]['cp'] = [(T, v + 1) if T == what else (T, v) for T, v in splits[g][j]['cp']]
-            conflict_info = (names[g], str(what), j)
+                splits[g][j]['cp'] = [(T, any_nudge(rng, v) if tiny else v + 1) if T == what else (T, v) for T, v in splits[g][j]['cp']]
+            conflict_info = (names[g], str(what), j, 'small difference' if tiny else 'large difference')
         elif mode == 'conflict':
             mode = 'clean'
         # files: label -> [(group name, property sets)]
@@ -612,14 +789,27 @@ def check_splits(ctx, rng, n_wholes, batch):
             ctx.count('layout_nested' if nested else 'layout_flat')
             path, jf = write_tree(ctx, d, tree, files2, nested)
             st, res = L.load_library(path)
-            inp = {'mode': mode, 'names': names, 'tree': json.dumps(tree), 'files': dict((k, [[nm, L.jshow(ps)] for nm, ps in v])
-                                                                                         for k, v in files2.items())}
+            texts = L.read_texts(d)
+            inp = {'mode': mode, 'names': names, 'tree': json.dumps(tree), 'texts': texts}
+            # what the property says about these files (also read by replay)
+            present_of = dict((nm, [p for p in parts if not (p['H'] is None and p['S'] is None and not p['cp'] and p['range'] is None)])
+                              for nm, parts in zip(names, splits))
+            if mode == 'duplicate':
+                inp['spec'] = {'error': 'key'}
+            elif mode == 'conflict':
+                inp['spec'] = {'error': 'readOnly'}
+            else:
+                inp['spec'] = {'groups': dict((nm, show_part(union_of(ps))) for nm, ps in present_of.items()
+                                              if ps and any(nm == n2 for lab in labels for n2, _ in files[lab]))}
             ctx.count('loads')
             ctx.count('mode_' + mode)
             ctx.count('files_%d' % n)
             ctx.count('load_' + (res if st == 'err' else 'ok'))
-            ctx.case(json.dumps([inp['files'], inp['tree']]) if n >= 2 else None, inp if len(ctx.samples) < 4 else None)
+            ctx.case(json.dumps([texts, inp['tree']]) if n >= 2 else None, inp if len(ctx.samples) < 4 else None)
             batch.append(({'op': 'c13.load', 'file': jf}, (st, res if st == 'err' else obs_lib(res)), inp))
+            # --- the same files loaded while the process sits in another directory: one that holds other library files under
+            # the names these files include, the library's own directory, a sub-directory of it
+            cwd_variants(ctx, rng, d, path, texts, inp, (st, res))
             # --- specification
             parts_invalid = [(nm, j) for nm, parts in zip(names, splits) for j, p in enumerate(parts) if not part_valid(p)
                              and not (p['H'] is None and p['S'] is None and not p['cp'] and p['range'] is None)]
@@ -693,11 +883,8 @@ def check_lib_sequences(ctx, rng, n, batch):
         names = rng.sample(NAMES, ngroups)
         wholes = dict((nm, gen_whole(rng)) for nm in names)
         nl = rng.randint(2, 4)
-        libs = []
         desc = []
         for j in range(nl):
-            d = L.new_dir(ctx, 'c13u-')
-            groups = []
             dd = {}
             for nm in names:
                 if rng.random() < 0.75:
@@ -706,27 +893,40 @@ def check_lib_sequences(ctx, rng, n, batch):
                         q = mutate_part(rng, p, wholes[nm])
                         if part_valid(q):
                             p = q
-                    groups.append((nm, {'thermochem': entry_tree(rng, p, 'nd')}))
                     dd[nm] = show_part(p)
-            L.write_file(os.path.join(d, 'library.yaml'), {'units': {}, 'groups': groups})
-            st, lib = L.load_library(os.path.join(d, 'library.yaml'))
-            if st != 'ok':
-                raise common.MachineryError('a generated single-file library does not load: %r %r' % (lib, groups))
-            libs.append(lib)
             desc.append(dd)
-        init = [lib_for_driver(l) for l in libs]
         ops = []
-        impl = []
         for j in range(rng.randint(1, 8)):
             t = rng.randrange(nl)
             s = rng.randrange(nl)
-            if s == t:
-                continue
-            ow = rng.random() < 0.3
+            if s != t:
+                ops.append([t, s, rng.random() < 0.3])
+        lib_sequence_case(ctx, desc, ops, batch)
+
+
+def lib_sequence_case(ctx, desc, ops, batch):
+    """libraries described by `desc` (one single-file library each), then GroupLibrary.Update calls `ops` = [target, source, overwrite]"""
+    import random
+    rng = random.Random(len(desc) * 1000 + len(ops))       # only the order of the keys written depends on it
+    libs = []
+    for dd in desc:
+        d = L.new_dir(ctx, 'c13u-')
+        groups = [(nm, {'thermochem': entry_tree(rng, unshow_part(sp), 'nd')}) for nm, sp in dd.items()]
+        L.write_file(os.path.join(d, 'library.yaml'), {'units': {}, 'groups': groups})
+        st, lib = L.load_library(os.path.join(d, 'library.yaml'))
+        if st != 'ok':
+            raise common.MachineryError('a generated single-file library does not load: %r %r' % (lib, groups))
+        libs.append(lib)
+    if True:
+        nl = len(libs)
+        init = [lib_for_driver(l) for l in libs]
+        done = []
+        impl = []
+        for t, s, ow in ops:
             before_t = obs_lib(libs[t])
             before_s = obs_lib(libs[s])
             s_order = [str(g) for g in libs[s]]
-            inp = {'libs': desc, 'ops': ops + [[t, s, ow]]}
+            inp = {'libs': desc, 'ops': done + [[t, s, ow]]}
             try:
                 with L.quiet():
                     libs[t].Update(libs[s], ow)
@@ -734,7 +934,7 @@ def check_lib_sequences(ctx, rng, n, batch):
             except Exception as e:
                 err = L.err_class(e)
             after = obs_lib(libs[t])
-            ops.append([t, s, ow])
+            done.append([t, s, ow])
             impl.append({'err': err, 'lib': after})
             # a group first seen must be a copy: the two libraries may not share a correlation object
             for g in libs[s]:
@@ -784,7 +984,7 @@ def check_lib_sequences(ctx, rng, n, batch):
                 ctx.violation('merging changed the source library', inp, expected=before_s, observed=obs_lib(libs[s]))
         ctx.case(json.dumps([desc, ops]), None)
         ctx.count('lib_sequences')
-        if ops:
+        if ops and batch is not None:
             batch.append(({'op': 'c13.libseq', 'libs': init, 'ops': ops}, impl, {'libs': desc, 'ops': ops}))
 
 
@@ -852,6 +1052,7 @@ def run(ctx):
         ctx.count('corpus')
         replay(ctx, rec)
     check_sequences(ctx, rng, ctx.n(800, 10000), batch)
+    tolerance_cases(ctx, batch)
     check_splits(ctx, rng, ctx.n(120, 900), batch)
     check_lib_sequences(ctx, rng, ctx.n(200, 2500), batch)
     compare_batch(ctx, batch)
@@ -865,14 +1066,37 @@ def run(ctx):
     from .c12 import reach_floor
     reach_floor(ctx, ['update_ok', 'update_readOnly', 'update_value', 'load_ok', 'load_key', 'load_readOnly', 'load_inputData',
                       'files_2', 'files_3', 'files_4', 'mode_clean', 'mode_conflict', 'mode_duplicate', 'mode_empty_entry',
-                      'mode_invalid_part', 'libupdate_ok', 'libupdate_readOnly', 'corr_c13.seq', 'corr_c13.load', 'corr_c13.libseq'])
+                      'mode_invalid_part', 'libupdate_ok', 'libupdate_readOnly', 'corr_c13.seq', 'corr_c13.load', 'corr_c13.libseq',
+                      'loads_from_another_cwd', 'cwd_other_files'])
 
 
 def replay(ctx, rec):
     inp = rec.get('input', rec)
     before = len(ctx.violations)
-    kind = rec.get('kind') or ('seq' if 'universe' in inp else 'files')
-    if kind == 'seq':
+    kind = rec.get('kind')          # corpus records name their kind; a record written by a run carries kind='property'
+    if kind not in ('seq', 'ref', 'files'):
+        kind = ('seq' if 'universe' in inp else 'libseq' if 'libs' in inp else 'ref' if 'whole' in inp else
+                'pair' if ('a' in inp and 'b' in inp) else 'cwd' if 'cwd' in inp else 'files')
+    if kind == 'libseq':
+        lib_sequence_case(ctx, inp['libs'], inp['ops'], None)
+    elif kind == 'pair':
+        # the same data in two include orders / nestings
+        loads = []
+        for side in ('a', 'b'):
+            d = L.new_dir(ctx, 'c13r-')
+            L.write_texts(d, inp[side]['texts'])
+            loads.append(L.load_library(os.path.join(d, 'library.yaml')))
+        if not same_load(loads[0], loads[1]):
+            ctx.violation('the merged library depends on the include order or nesting', inp, expected=show_load(loads[0]), observed=show_load(loads[1]))
+    elif kind == 'cwd':
+        d = L.new_dir(ctx, 'c13r-')
+        L.write_texts(d, inp['texts'])
+        neutral = L.load_library(os.path.join(d, 'library.yaml'))
+        got = load_in_situation(ctx, d, inp['cwd'])
+        if not same_load(neutral, got):
+            ctx.violation('what a library holds after loading depends on the current directory of the process', inp,
+                          expected=show_load(neutral), observed=show_load(got))
+    elif kind == 'seq':
         parts = [unshow_part(j) for j in inp['universe']]
         objs = [impl_obj(p) for p in parts]
         for j, (t, s, ow) in enumerate(inp['ops']):
@@ -900,11 +1124,9 @@ def replay(ctx, rec):
         check_ref_assumption(ctx, unshow_part(inp['whole']))
     else:
         d = L.new_dir(ctx, 'c13r-')
-        for fname, text in inp['texts'].items():
-            with open(os.path.join(d, fname), 'w') as f:
-                f.write(text)
+        L.write_texts(d, inp['texts'])
         st, res = L.load_library(os.path.join(d, 'library.yaml'))
-        want = rec['spec']
+        want = rec.get('spec') or inp['spec']
         if 'error' in want:
             if st != 'err' or res != want['error']:
                 ctx.violation(rec.get('what', 'recorded files are not rejected as specified'), inp, expected=want['error'],
@@ -912,7 +1134,7 @@ def replay(ctx, rec):
         else:
             if st != 'ok':
                 ctx.violation(rec.get('what', 'recorded files do not load'), inp, expected='loaded', observed=res,
-                              finding=rec.get('finding') if res == 'inputData' else None)
+                              finding=(rec.get('finding') or ('Y1' if inp.get('parts') else None)) if res == 'inputData' else None)
             else:
                 o = obs_lib(res)
                 for nm, w in want['groups'].items():
